@@ -3,6 +3,7 @@ C11 — helper lemmas for the Scale / Impute model (`Model/C11.lean`).
 -/
 import CobaVerif.Model.C11
 import CobaVerif.Generated.C11Options
+import CobaVerif.Generated.C11Programs
 import Mathlib.Tactic.Linarith
 import Mathlib.Tactic.Ring
 import Mathlib.Tactic.FieldSimp
@@ -2194,5 +2195,276 @@ theorem sqrt_exact_perfect_square' (xs : List Rat) (r : Rat) (hr : 0 ≤ r) (hv 
   exact ⟨hr, hv.symm⟩
 
 example : pySqrtFrac 4 1 = (2 * 2 ^ 54, 2 ^ 54) := by decide +kernel
+
+/-! ### phase 5 — first-seen mode, rank arithmetic of the quartiles, small sizes -/
+
+theorem modeAux_first (all : List Val) (l : List Val) (b : Val) :
+    ∃ r, modeAux all l (some b) = some r ∧
+      ((r = b ∧ ∀ v ∈ l, count v all ≤ count b all) ∨
+       (∃ pre post, l = pre ++ r :: post ∧ (∀ v ∈ pre, count v all < count r all) ∧ count b all < count r all ∧
+          ∀ v ∈ post, count v all ≤ count r all)) := by
+  induction l generalizing b with
+  | nil => exact ⟨b, rfl, Or.inl ⟨rfl, by simp⟩⟩
+  | cons v l ih =>
+    simp only [modeAux]
+    by_cases h : count b all < count v all
+    · simp only [h, if_true]
+      obtain ⟨r, h1, h2⟩ := ih v
+      refine ⟨r, h1, Or.inr ?_⟩
+      rcases h2 with ⟨rfl, h2⟩ | ⟨pre, post, rfl, h3, h4, h5⟩
+      · exact ⟨[], l, rfl, by simp, h, h2⟩
+      · refine ⟨v :: pre, post, rfl, ?_, by omega, h5⟩
+        intro x hx
+        rcases List.mem_cons.1 hx with rfl | hx
+        · exact h4
+        · exact h3 x hx
+    · simp only [h, if_false]
+      obtain ⟨r, h1, h2⟩ := ih b
+      refine ⟨r, h1, ?_⟩
+      rcases h2 with ⟨rfl, h2⟩ | ⟨pre, post, rfl, h3, h4, h5⟩
+      · left
+        refine ⟨rfl, ?_⟩
+        intro x hx
+        rcases List.mem_cons.1 hx with rfl | hx
+        · omega
+        · exact h2 x hx
+      · right
+        refine ⟨v :: pre, post, rfl, ?_, h4, h5⟩
+        intro x hx
+        rcases List.mem_cons.1 hx with rfl | hx
+        · omega
+        · exact h3 x hx
+
+theorem mode_first_seen' {vs : List Val} {m : Val} (h : mode vs = some m) :
+    ∃ pre post, vs = pre ++ m :: post ∧ (∀ v ∈ pre, count v vs < count m vs) ∧ (∀ v ∈ post, count v vs ≤ count m vs) := by
+  cases vs with
+  | nil => simp [mode, modeAux] at h
+  | cons a l =>
+    simp only [mode, modeAux] at h
+    obtain ⟨r, h1, h2⟩ := modeAux_first (a :: l) l a
+    rw [h1] at h
+    simp only [Option.some.injEq] at h
+    subst h
+    rcases h2 with ⟨rfl, h2⟩ | ⟨pre, post, hl, h3, h4, h5⟩
+    · exact ⟨[], l, rfl, by simp, h2⟩
+    · refine ⟨a :: pre, post, by rw [hl]; rfl, ?_, h5⟩
+      intro x hx
+      rcases List.mem_cons.1 hx with rfl | hx
+      · exact h4
+      · exact h3 x hx
+
+theorem mode_not_before' {vs : List Val} {m : Val} (h : mode vs = some m) (v : Val) (hv : v ∈ vs)
+    (hc : count v vs = count m vs) : vs.idxOf m ≤ vs.idxOf v := by
+  obtain ⟨pre, post, hvs, h1, _⟩ := mode_first_seen' h
+  have hm : m ∉ pre := fun hm => by have := h1 m hm; omega
+  have hvp : v ∉ pre := fun hv' => by have := h1 v hv'; omega
+  rw [hvs, List.idxOf_append_of_notMem hm, List.idxOf_append_of_notMem hvp]
+  simp
+
+
+
+theorem percentile_quarter' (s : List Rat) (q : Nat) (hq : q = 1 ∨ q = 3) (hn : 2 ≤ s.length) :
+    percentile s ((q : Rat) / 4) = quarterAt s q := by
+  have hp0 : ((q : Rat) / 4) ≠ 0 := by rcases hq with rfl | rfl <;> norm_num
+  have hp1 : ((q : Rat) / 4) ≠ 1 := by rcases hq with rfl | rfl <;> norm_num
+  obtain ⟨n, hnn⟩ : ∃ n, s.length = n + 1 := ⟨s.length - 1, by omega⟩
+  have hi : (q : Rat) / 4 * ((s.length : Rat) - 1) = ((q * n : Nat) : Rat) / ((4 : Nat) : Rat) := by
+    rw [hnn]; push_cast; ring
+  have hfl : ((q : Rat) / 4 * ((s.length : Rat) - 1)).floor.toNat = q * n / 4 := by
+    rw [hi, rat_floor_eq, Rat.floor_natCast_div_natCast]
+    exact Int.toNat_natCast _
+  have hk : q * (s.length - 1) = q * n := by rw [hnn]; simp
+  have hdm : ((q * n : Nat) : Rat) = 4 * ((q * n / 4 : Nat) : Rat) + ((q * n % 4 : Nat) : Rat) := by
+    exact_mod_cast (Nat.div_add_mod (q * n) 4).symm
+  have hne : ∀ x, s ≠ [x] := fun x hx => by rw [hx] at hn; simp at hn
+  unfold percentile quarterAt
+  split
+  · rename_i x; exact absurd rfl (hne x)
+  · simp only [hp0, hp1, if_false, hfl, hk]
+    rw [hi]
+    by_cases hr : q * n % 4 = 0
+    · have : ((q * n : Nat) : Rat) / ((4 : Nat) : Rat) = ((q * n / 4 : Nat) : Rat) := by
+        rw [hdm, hr]; push_cast; ring
+      simp only [hr, if_true, this]
+    · have hne' : ((q * n : Nat) : Rat) / ((4 : Nat) : Rat) ≠ ((q * n / 4 : Nat) : Rat) := by
+        intro he
+        rw [hdm] at he
+        have h4 : ((q * n % 4 : Nat) : Rat) = 0 := by push_cast at he ⊢; linarith
+        exact hr (by exact_mod_cast h4)
+      have hw : ((q * n : Nat) : Rat) / ((4 : Nat) : Rat) - ((q * n / 4 : Nat) : Rat) = ((q * n % 4 : Nat) : Rat) / 4 := by
+        rw [hdm]; push_cast; ring
+      simp only [hr, hne', if_false, hw]
+      try (cases s[q * n / 4]? <;> cases s[q * n / 4 + 1]? <;> rfl)
+
+theorem iqr_quarters' (xs : List Rat) (hn : 2 ≤ xs.length) :
+    iqr xs = match quarterAt (isort xs) 1, quarterAt (isort xs) 3 with
+      | some a, some b => some (b - a)
+      | _, _ => none := by
+  have h1 := percentile_quarter' (isort xs) 1 (Or.inl rfl) (by rw [isort_length]; exact hn)
+  have h3 := percentile_quarter' (isort xs) 3 (Or.inr rfl) (by rw [isort_length]; exact hn)
+  have e1 : (((1 : Nat) : Rat) / 4) = 1 / 4 := by norm_num
+  have e3 : (((3 : Nat) : Rat) / 4) = 3 / 4 := by norm_num
+  rw [e1] at h1; rw [e3] at h3
+  unfold iqr
+  rw [if_neg (by omega), h1, h3]
+  cases quarterAt (isort xs) 1 <;> cases quarterAt (isort xs) 3 <;> rfl
+
+/-- EVEN number of values: `n−1` is odd, so neither quartile rank is whole — both quartiles are proper interpolations
+between two neighbouring order statistics, with weights `r/4`, `r ∈ {1,3}` -/
+theorem iqr_even_interpolates' (xs : List Rat) (hn : 2 ≤ xs.length) (he : xs.length % 2 = 0) :
+    ∃ a b c d, (isort xs)[(xs.length - 1) / 4]? = some a ∧ (isort xs)[(xs.length - 1) / 4 + 1]? = some b ∧
+      (isort xs)[3 * (xs.length - 1) / 4]? = some c ∧ (isort xs)[3 * (xs.length - 1) / 4 + 1]? = some d ∧
+      (xs.length - 1) % 4 ≠ 0 ∧ 3 * (xs.length - 1) % 4 ≠ 0 ∧
+      iqr xs = some (((1 - ((3 * (xs.length - 1) % 4 : Nat) : Rat) / 4) * c + ((3 * (xs.length - 1) % 4 : Nat) : Rat) / 4 * d)
+                   - ((1 - (((xs.length - 1) % 4 : Nat) : Rat) / 4) * a + (((xs.length - 1) % 4 : Nat) : Rat) / 4 * b)) := by
+  have hl := isort_length xs
+  have r1 : (xs.length - 1) % 4 ≠ 0 := by omega
+  have r3 : 3 * (xs.length - 1) % 4 ≠ 0 := by omega
+  have b1 : (xs.length - 1) / 4 + 1 < (isort xs).length := by omega
+  have b3 : 3 * (xs.length - 1) / 4 + 1 < (isort xs).length := by omega
+  refine ⟨(isort xs)[(xs.length - 1) / 4]'(by omega), (isort xs)[(xs.length - 1) / 4 + 1]'b1,
+          (isort xs)[3 * (xs.length - 1) / 4]'(by omega), (isort xs)[3 * (xs.length - 1) / 4 + 1]'b3,
+          List.getElem?_eq_getElem _, List.getElem?_eq_getElem _, List.getElem?_eq_getElem _, List.getElem?_eq_getElem _, r1, r3, ?_⟩
+  rw [iqr_quarters' xs hn]
+  simp only [quarterAt, hl, Nat.one_mul, r1, r3, if_false, List.getElem?_eq_getElem b1, List.getElem?_eq_getElem b3,
+    List.getElem?_eq_getElem (show (xs.length - 1) / 4 < (isort xs).length by omega),
+    List.getElem?_eq_getElem (show 3 * (xs.length - 1) / 4 < (isort xs).length by omega)]
+
+/-- `n ≡ 1 (mod 4)` values: both ranks are whole, no interpolation — the interquartile range is the difference of two
+order statistics -/
+theorem iqr_whole_ranks' (xs : List Rat) (hn : 2 ≤ xs.length) (h4 : xs.length % 4 = 1) :
+    ∃ a c, (isort xs)[(xs.length - 1) / 4]? = some a ∧ (isort xs)[3 * (xs.length - 1) / 4]? = some c ∧ iqr xs = some (c - a) := by
+  have hl := isort_length xs
+  have r1 : (xs.length - 1) % 4 = 0 := by omega
+  have r3 : 3 * (xs.length - 1) % 4 = 0 := by omega
+  have b1 : (xs.length - 1) / 4 < (isort xs).length := by omega
+  have b3 : 3 * (xs.length - 1) / 4 < (isort xs).length := by omega
+  refine ⟨(isort xs)[(xs.length - 1) / 4]'b1, (isort xs)[3 * (xs.length - 1) / 4]'b3,
+          List.getElem?_eq_getElem _, List.getElem?_eq_getElem _, ?_⟩
+  rw [iqr_quarters' xs hn]
+  simp only [quarterAt, hl, Nat.one_mul, r1, r3, if_true, List.getElem?_eq_getElem b1, List.getElem?_eq_getElem b3]
+
+/-- the size thresholds: no value / one value → 0 (`len(values) <= 1`); two values → half their distance -/
+theorem iqr_small' : iqr [] = some 0 ∧ (∀ a, iqr [a] = some 0) ∧ (∀ a b, iqr [a, b] = some (absR (b - a) / 2)) := by
+  refine ⟨rfl, fun a => rfl, fun a b => ?_⟩
+  rw [iqr_quarters' [a, b] (by simp)]
+  by_cases h : a ≤ b
+  · have hs : isort [a, b] = [a, b] := by simp [isort, insertSorted, h]
+    have : ¬ b - a < 0 := by linarith
+    simp [hs, quarterAt, absR, this]
+    ring
+  · have hs : isort [a, b] = [b, a] := by simp [isort, insertSorted, h]
+    have : b - a < 0 := by linarith
+    simp [hs, quarterAt, absR, this]
+    ring
+
+/-- median: one value → itself, two values → their mean (the even/odd threshold at its smallest sizes) -/
+theorem median_small' : median [] = none ∧ (∀ a, median [a] = some a) ∧ (∀ a b, median [a, b] = some ((a + b) / 2)) := by
+  refine ⟨by simp [median, isort], fun a => by simp [median, isort, insertSorted], fun a b => ?_⟩
+  by_cases h : a ≤ b
+  · simp [median, isort, insertSorted, h]
+  · simp [median, isort, insertSorted, h]; ring
+
+/-- the even/odd threshold of `statistics.median` on the sorted data -/
+theorem median_parity' (xs : List Rat) (hn : xs ≠ []) :
+    (xs.length % 2 = 1 → ∃ a, (isort xs)[xs.length / 2]? = some a ∧ median xs = some a) ∧
+    (xs.length % 2 = 0 → ∃ a b, (isort xs)[xs.length / 2 - 1]? = some a ∧ (isort xs)[xs.length / 2]? = some b ∧
+        median xs = some ((a + b) / 2)) := by
+  have hl := isort_length xs
+  have hpos : 0 < xs.length := List.length_pos_iff.2 hn
+  constructor
+  · intro ho
+    have b : xs.length / 2 < (isort xs).length := by omega
+    refine ⟨(isort xs)[xs.length / 2]'b, List.getElem?_eq_getElem b, ?_⟩
+    simp only [median, hl, ho, if_true, show ¬ xs.length = 0 by omega, if_false, List.getElem?_eq_getElem b]
+  · intro he
+    have b1 : xs.length / 2 - 1 < (isort xs).length := by omega
+    have b2 : xs.length / 2 < (isort xs).length := by omega
+    refine ⟨(isort xs)[xs.length / 2 - 1]'b1, (isort xs)[xs.length / 2]'b2, List.getElem?_eq_getElem b1, List.getElem?_eq_getElem b2, ?_⟩
+    simp only [median, hl, he, show ¬ xs.length = 0 by omega, if_false, show ¬ (0 = 1) by omega,
+      List.getElem?_eq_getElem b1, List.getElem?_eq_getElem b2]
+
+/-! ### phase 5 — expression programs -/
+
+theorem iqr_program' (xs : List Rat) : iqrProg.run xs = iqr xs := by
+  unfold IqrProg.run iqr iqrProg
+  by_cases h : xs.length ≤ 1
+  · simp [h]
+  · simp only [h, if_false, List.map]
+    cases percentile (isort xs) (1 / 4) <;> cases percentile (isort xs) (3 / 4) <;>
+      simp [optAll, PExpr.eval, List.lookup]
+
+theorem apply_program' (x s f : Rat) :
+    applyExpr.eval [("x", x), ("shift", s), ("scale", f)] [] = some ((x + s) * f) ∧ applyVal (s, f) (.num x) = .num ((x + s) * f) := by
+  constructor
+  · simp [applyExpr, PExpr.eval, List.lookup]
+  · rfl
+
+theorem mean_program' (xs : List Rat) : meanExpr.eval [] xs = mean xs := by
+  cases xs with
+  | nil => simp [meanExpr, PExpr.eval, mean]
+  | cons a l =>
+    have : ((l.length : Rat) + 1) ≠ 0 := by positivity
+    simp [meanExpr, PExpr.eval, mean, this]
+
+theorem pyIndex_nat (s : List Rat) (k : Nat) : pyIndex s (k : Rat) = s[k]? := by
+  have h : ¬ ((k : Rat) < 0) := not_lt.2 (Nat.cast_nonneg k)
+  simp [pyIndex, h, rat_floor_eq]
+
+theorem percentile_not_single (s : List Rat) (p : Rat) (h : s.length ≠ 1) :
+    percentile s p = if p = 0 then s.head? else if p = 1 then s.getLast? else
+      if p * ((s.length : Rat) - 1) = ((p * ((s.length : Rat) - 1)).floor.toNat : Rat) then s[(p * ((s.length : Rat) - 1)).floor.toNat]?
+      else match s[(p * ((s.length : Rat) - 1)).floor.toNat]?, s[(p * ((s.length : Rat) - 1)).floor.toNat + 1]? with
+        | some a, some b => some ((1 - (p * ((s.length : Rat) - 1) - ((p * ((s.length : Rat) - 1)).floor.toNat : Rat))) * a
+                                  + (p * ((s.length : Rat) - 1) - ((p * ((s.length : Rat) - 1)).floor.toNat : Rat)) * b)
+        | _, _ => none := by
+  match s, h with
+  | [], _ => rfl
+  | [x], h => exact absurd rfl h
+  | _ :: _ :: _, _ => rfl
+
+theorem percentile_program' (s : List Rat) (p : Rat) (hp : 0 ≤ p) (hs : s ≠ []) : pctProg.run s p = percentile s p := by
+  obtain ⟨n, hn⟩ : ∃ n, s.length = n + 1 := ⟨s.length - 1, by have := List.length_pos_iff.2 hs; omega⟩
+  unfold PctProg.run
+  by_cases h1 : s.length = 1
+  · obtain ⟨x, rfl⟩ := List.length_eq_one_iff.1 h1
+    have := pyIndex_nat [x] 0
+    simp only [Nat.cast_zero] at this
+    simp [pctProg, PExpr.eval, percentile, this]
+  · rw [if_neg h1, percentile_not_single s p h1]
+    by_cases h0 : p = 0
+    · have := pyIndex_nat s 0
+      simp only [Nat.cast_zero] at this
+      simp [h0, pctProg, PExpr.eval, this, List.head?_eq_getElem?]
+    · by_cases hp1 : p = 1
+      · have hl : pyIndex s (-1) = s[s.length - 1]? := by
+          have : ((-1 : Rat) < 0) := by norm_num
+          simp [pyIndex, this, rat_floor_eq, hn]
+        simp [hp1, pctProg, PExpr.eval, hl, List.getLast?_eq_getElem?]
+      · simp only [h0, hp1, if_false]
+        have hi0 : 0 ≤ p * ((s.length : Rat) - 1) := by
+          rw [hn]; push_cast; have : (0 : Rat) ≤ n := Nat.cast_nonneg n; nlinarith
+        simp only [pctProg, PExpr.eval, List.lookup, String.reduceBEq, Option.bind_some, Option.map_some, Option.bind]
+        generalize p * ((s.length : Rat) - 1) = i at hi0
+        have hfl : 0 ≤ ⌊i⌋ := Int.floor_nonneg.2 hi0
+        have hI : pyInt i = ((i.floor.toNat : Nat) : Rat) := by
+          simp only [pyInt, hi0, if_true, rat_floor_eq]
+          have : ((⌊i⌋.toNat : Nat) : Int) = ⌊i⌋ := Int.toNat_of_nonneg hfl
+          exact_mod_cast congrArg (fun z : Int => (z : Rat)) this.symm
+        have e1 : pyIndex s ((i.floor.toNat : Nat) : Rat) = s[i.floor.toNat]? := pyIndex_nat s _
+        have e2 : pyIndex s (((i.floor.toNat : Nat) : Rat) + 1) = s[i.floor.toNat + 1]? := by
+          have := pyIndex_nat s (i.floor.toNat + 1)
+          push_cast at this
+          exact this
+        rw [hI, e1, e2]
+        by_cases he : i = ((i.floor.toNat : Nat) : Rat)
+        · rw [if_pos he, if_pos he]
+        · rw [if_neg he, if_neg he]
+          cases s[i.floor.toNat]? <;> cases s[i.floor.toNat + 1]? <;> simp
+
+theorem programs_match_source' :
+    Coba.Generated.C11.pctSrc = pctProg ∧ Coba.Generated.C11.iqrSrc = iqrProg ∧
+    (Coba.Generated.C11.applySrc ≠ [] ∧ ∀ e ∈ Coba.Generated.C11.applySrc, e = applyExpr) ∧ Coba.Generated.C11.meanSrc = meanExpr := by
+  decide +kernel
 
 end Coba.C11
